@@ -8,5 +8,6 @@ CONSTANTS BlockLists = {"b1", "b2"}
           SchedBeh <- BehTiny
           FileBeh <- BehTiny
           SetURLBeh <- BehNone
+          Toggle = FALSE
           SetURLAsIs = FALSE
 INVARIANTS InvCoherent
